@@ -73,7 +73,7 @@ def conv_stub(kind, tokvals):
     return f
 
 
-def block_readers(chk, mod, lib):
+def block_readers(chk, mod, lib, report_ub=False):
     """read_matrix / read_vector on a block of two data lines with symbolic indices and values"""
     for which, fn, ncell, ntok in (('matrix', 'vx_read_matrix33', 9, 3), ('vector', 'vx_read_vector3', 3, 2)):
         chk.functions.add('gm2calc::GM2_slha_io::read_%s<Eigen::Matrix<double,3,%d>>' % (which, 3 if which == 'matrix' else 1))
@@ -136,6 +136,31 @@ def block_readers(chk, mod, lib):
                 chk.extra.setdefault('index_overflow_paths', 0)
                 chk.extra['index_overflow_paths'] += 1
                 p.data['ovf'] = True
+                if report_ub and any(k == 'C14:read_%s:index-overflow' % which for _, k, _, _ in chk.violations):
+                    chk.record(tag + ':index-overflow', 'violated', 'same finding as above')
+                    continue
+                if report_ub:
+                    from . import ubsan
+                    r, m = chk.solve(p.pc + [ovf[0][1]['pc'][-1]] if False else p.pc, 10000)
+                    idx = {}
+                    for (l, t, ptr) in tokens:
+                        v = tokvals.get((ptr.rid, ptr.off, 'l'))
+                        if v is not None and m is not None:
+                            x = m.bv(v)
+                            idx[(l, t)] = x - (1 << 64) if x >= 1 << 63 else x
+                    # the overflowing operand of the recorded event
+                    text = native_text(which, idx, ntok)
+                    ub, out = ubsan.run([which, text])
+                    chk.traces_validated += 1
+                    if ub:
+                        chk.violation(tag + ':index-overflow', 'C14:read_%s:index-overflow' % which,
+                                      'read_%s: signed overflow in index arithmetic for index tokens %r '
+                                      '(UBSan: %s)' % (which, idx, out.split('\n')[0][-120:]),
+                                      '#!/bin/sh\ncd %s && exec python3-vt -m props.ubsan %s %r\n' % (VERIF, which, text))
+                    else:
+                        chk.record(tag + ':index-overflow', 'inconclusive', 'overflow path not reproduced under UBSan')
+                        chk.inconclusive.append(tag + ':index-overflow')
+                    continue
             # expected final content: later overrides earlier, everything else untouched
             final = [ex.load(p, Ptr(mat.rid, 8 * i), llir.DOUBLE) for i in range(ncell)]
             exp = list(init)
